@@ -30,6 +30,13 @@
 //! it — clean restart, or a crash at any file-system call it made, under every reboot mode —
 //! the restored graph must still be the graph as of the acknowledged imports.
 //!
+//! The history goes on after a crash: for every distinct state a crash inside an acknowledged
+//! upload leaves on disk (any reboot mode), the restarted server — serving what it restored —
+//! takes further uploads: the client *retries the byte-identical upload* it never got an answer
+//! for, and one more new upload follows (both orders).  After each a clean restart must restore
+//! the live graph of that server; the retry, when it comes first, is itself killed before each of
+//! its file-system calls (restart: graph before or after it).
+//!
 //! Oracle: the restored graph (canonical dump, ids do not matter) must equal the live graph
 //! as of the last acknowledged import, or as of the in-flight one; after a clean restart it
 //! must equal the live graph.  Everything else is classified (nothing restored / only the
@@ -328,6 +335,8 @@ struct Ctx {
     evals: u64,
     steps: u64,
     memo: Vec<(Vec<(String, u64)>, Restored)>,
+    /// crash states (import event x what the crash left on disk) whose history was already continued
+    followed: BTreeSet<u64>,
     stop: bool,
 }
 
@@ -447,6 +456,201 @@ struct Opts {
     do_clean: bool,
 }
 
+/// What a crash left in the snapshot directory, as far as the next process can tell apart:
+/// per file its name and whether it is empty / holds exactly the bytes of the upload that was in
+/// flight / (tmp file) some other part of them / something else (by content).
+fn disk_shape(d: &SimFs, inflight: &[u8]) -> String {
+    let mut out = String::new();
+    for (p, l) in d.files() {
+        let b = d.read_file(&p).unwrap_or_default();
+        let name = p.to_string_lossy().to_string();
+        let what = if l == 0 {
+            "empty".to_string()
+        } else if b == inflight {
+            "inflight".to_string()
+        } else if name.ends_with(".tmp") {
+            "part".to_string()
+        } else {
+            format!("{:016x}", crate::kit::rng::fnv1a(&b))
+        };
+        out.push_str(&format!("{name}={what};"));
+    }
+    out
+}
+
+enum UploadErr {
+    Refused(String),
+    PersistFailed(String),
+}
+
+/// One upload to the running server: through the router, or the handler's two steps directly.
+fn upload(via_http: bool, live: &Arc<RwLock<GraphStore>>, data: &[u8]) -> Result<(), UploadErr> {
+    if via_http {
+        let (status, body) = http_upload(live.clone(), data);
+        if status == 200 && body.contains("\"status\":\"ok\"") {
+            Ok(())
+        } else {
+            Err(UploadErr::Refused(format!("{status} {body}")))
+        }
+    } else {
+        let mut g = live.try_write().expect("uncontended");
+        import_into(&mut g, data).map_err(UploadErr::Refused)?;
+        persist_snapshot(DATA, data).map_err(|e| UploadErr::PersistFailed(e.to_string()))
+    }
+}
+
+/// Where a continued history branched off.
+struct Cont<'a> {
+    step: usize,
+    /// reboot mode of the crash the history continues after
+    mode: &'a str,
+    origin: String,
+    pin: Value,
+}
+
+/// The history continues after a crash: a new server process came up on `d2` and serves the graph
+/// `c0` it restored.  The client, which never got an answer for the upload that was in flight,
+/// *retries it* (the byte-identical file) and another upload follows — in both orders.  After
+/// each of these acknowledged uploads a clean restart must restore the live graph; the retry, when
+/// it comes first, is also killed before each of its file-system calls (restart: the graph before or after it).
+/// Restoring the last acknowledged / the in-flight upload alone is the listed finding.
+fn continue_after_crash(cx: &mut Ctx, o: &Opts, d2: &Arc<SimFs>, c0: &String, empty: &String, inflight: &[u8], w: &Cont) {
+    let snap = format!("{DATA}/snapshots/default.sgsnap");
+    let marker = format!("{snap}.committed");
+    // the restored store, rebuilt from the file the restart read
+    let recipe0: Vec<Vec<u8>> = match d2.read_file(Path::new(&snap)) {
+        Some(b) if c0 != empty => vec![b],
+        _ => vec![],
+    };
+    if cx.vios.len() >= 10 {
+        return;
+    }
+    if w.mode != "process_crash" {
+        cx.probe("history_continued_after_power_loss");
+    }
+    for chain in [["retried", "next"], ["next", "retried"]] {
+        let disk = d2.fork();
+        let live: Arc<RwLock<GraphStore>> = Arc::new(RwLock::new(store_from(&recipe0)));
+        let mut recipe = recipe0.clone();
+        let mut prev = c0.clone();
+        let mut told = w.origin.clone();
+        for (i, which) in chain.iter().enumerate() {
+            let x: &[u8] = if *which == "retried" { inflight } else { &o.followup };
+            told.push_str(if *which == "retried" { ", the client retried the same upload" } else { ", next upload (one new node)" });
+            if *which == "retried" {
+                cx.probe("retry_after_crash");
+                if disk.read_file(Path::new(&snap)).as_deref() == Some(inflight) && disk.read_file(Path::new(&marker)).is_none() {
+                    // the crashed attempt got as far as putting the complete file in place, uncommitted
+                    cx.probe("retry_onto_uncommitted_identical_snapshot");
+                }
+            } else {
+                cx.probe("followup_upload_after_crash");
+            }
+            let pre = disk.fork();
+            disk.install();
+            disk.reset_ops();
+            let verdict = upload(o.via_http, &live, x);
+            let ops2: Vec<OpRec> = disk.ops();
+            cx.evals += 1;
+            cx.steps += 1;
+            match verdict {
+                Ok(()) => {}
+                Err(UploadErr::Refused(e)) => {
+                    cx.violate(format!("C14/after_crash/{}/{which}_upload_refused", w.mode), format!("{told}: a valid snapshot was refused: {}", e.replace('\n', " ")), w.step, w.pin.clone());
+                    break;
+                }
+                Err(UploadErr::PersistFailed(e)) => {
+                    cx.violate(format!("C14/after_crash/{}/{which}_persist_failed", w.mode), format!("{told}: persist_snapshot failed: {e}"), w.step, w.pin.clone());
+                    break;
+                }
+            }
+            let want = canon_of(&live.try_read().expect("uncontended"));
+            let alone = canon_of(&store_from(&[x.to_vec()]));
+            // ---- acknowledged; clean restart
+            let f = disk.fork();
+            f.reboot(Reboot::ProcessCrash, &[]);
+            let r3 = cx.restart_memo(&f);
+            cx.evals += 1;
+            cx.steps += 1;
+            let files = |d: &SimFs| d.files().iter().map(|(p, l)| format!("{}({l})", p.file_name().map(|x| x.to_string_lossy().to_string()).unwrap_or_default())).collect::<Vec<_>>();
+            let mut bad = true;
+            match &r3 {
+                Restored::Graph(c) if *c == want => {
+                    bad = false;
+                    if *which == "retried" {
+                        cx.probe("retried_upload_restored");
+                    }
+                }
+                Restored::Graph(c) if *c == alone => cx.violate(sig_for("crash", w.mode, "only_last_import_kept"), format!("{told} acknowledged; the following clean restart restored only that upload"), w.step, w.pin.clone()),
+                Restored::Graph(c) => {
+                    let class = if c == empty {
+                        "nothing"
+                    } else if *c == prev {
+                        "the graph as before this upload"
+                    } else {
+                        "a partial or corrupt graph"
+                    };
+                    cx.violate(
+                        format!("C14/after_crash/{}/{which}_upload_not_restored", w.mode),
+                        format!("{told} acknowledged; the following clean restart restored {class} ({}); expected {}; files: {:?}", c.replace('\n', " "), want.replace('\n', " "), files(&f)),
+                        w.step,
+                        w.pin.clone(),
+                    )
+                }
+                Restored::Error(e, _) => cx.violate(format!("C14/after_crash/{}/restore_error", w.mode), format!("{told} acknowledged; the following clean restart failed: {e}"), w.step, w.pin.clone()),
+                Restored::Panic(m) => cx.violate(format!("C14/after_crash/{}/restore_panicked", w.mode), format!("{told}: {m}"), w.step, w.pin.clone()),
+            }
+            // ---- the same upload killed before each of its file-system calls
+            if i == 0 && *which == "retried" {
+                // (op boundaries and one torn offset per write: the torn states of the tmp file were
+                // enumerated for this very file when it was first uploaded)
+                let pts: Vec<CrashPoint> = crash_points(&ops2, 0, &[]).into_iter().filter(|c| c.partial.is_none() || c.partial == ops2.get(c.op as usize).map(|o| o.len / 2)).collect();
+                for cp in pts {
+                    let d = pre.fork();
+                    d.install();
+                    d.set_crash(Some(cp));
+                    let fired = if o.via_http {
+                        let throwaway = Arc::new(RwLock::new(store_from(&recipe)));
+                        run_process(|| http_upload(throwaway, x)).is_err()
+                    } else {
+                        run_process(|| persist_snapshot(DATA, x)).is_err()
+                    };
+                    if fired {
+                        cx.probe("crash_inside_upload_after_crash");
+                    }
+                    d.reboot(Reboot::ProcessCrash, &[]);
+                    let r4 = cx.restart_memo(&d);
+                    cx.evals += 1;
+                    cx.steps += 1;
+                    let at = format!("{told}, killed {} [process_crash]", describe(&ops2, &cp));
+                    match &r4 {
+                        Restored::Graph(c) if *c == want || *c == prev => {}
+                        Restored::Graph(c) if *c == alone => cx.violate(sig_for("crash", w.mode, "only_last_import_kept"), format!("{at}; the following restart restored only that upload"), w.step, w.pin.clone()),
+                        Restored::Graph(c) => {
+                            let class = if c == empty { "nothing_restored" } else { "partial_or_corrupt" };
+                            cx.violate(
+                                format!("C14/after_crash/{}/crash_in_{which}_upload/{class}", w.mode),
+                                format!("{at}; the following restart restored {}; expected {} or {}; files: {:?}", c.replace('\n', " "), prev.replace('\n', " "), want.replace('\n', " "), files(&d)),
+                                w.step,
+                                w.pin.clone(),
+                            )
+                        }
+                        Restored::Error(e, _) => cx.violate(format!("C14/after_crash/{}/crash_in_{which}_upload/restore_error", w.mode), format!("{at}; the following restart failed: {e}"), w.step, w.pin.clone()),
+                        Restored::Panic(m) => cx.violate(format!("C14/after_crash/{}/crash_in_{which}_upload/restore_panicked", w.mode), format!("{at}: {m}"), w.step, w.pin.clone()),
+                    }
+                }
+                disk.install();
+            }
+            if bad {
+                break;
+            }
+            // the server keeps running
+            prev = want;
+            recipe.push(x.to_vec());
+        }
+    }
+}
+
 fn run_pass(case: &Case, pass: Pass, o: &Opts, cx: &mut Ctx) {
     let disk = SimFs::new();
     disk.set_journal_mode(pass == Pass::Journal);
@@ -456,7 +660,6 @@ fn run_pass(case: &Case, pass: Pass, o: &Opts, cx: &mut Ctx) {
     // snapshots whose import, in order, into an empty store gives the live store
     let mut recipe: Vec<Vec<u8>> = Vec::new();
     let mut ordinal = 0u64;
-    let mut followed: BTreeSet<u64> = BTreeSet::new();
     let end = json!({"op":"restart","final":true});
     for (step, ev) in case.events.iter().chain(std::iter::once(&end)).enumerate() {
         if cx.stop {
@@ -626,38 +829,15 @@ fn run_pass(case: &Case, pass: Pass, o: &Opts, cx: &mut Ctx) {
                                             cx.probe("crashed_upload_rolled_back");
                                         }
                                     }
-                                    // ---- the server must be able to take the next upload after this crash
-                                    if *mode == "process_crash" && fired && acked {
-                                        // once per (crashed call, shape of the directory): which files exist and whether they are empty
-                                        let listing: Vec<(String, bool)> = d2.files().iter().map(|(p, l)| (p.to_string_lossy().to_string(), *l == 0)).collect();
-                                        if followed.insert(hash_str(&format!("{step}/{}/{listing:?}", cp.op))) {
-                                            let restored_bytes: Vec<Vec<u8>> = match (&r, d2.read_file(Path::new(&format!("{DATA}/snapshots/default.sgsnap")))) {
-                                                (Restored::Graph(c), Some(b)) if *c != known.empty => vec![b],
-                                                _ => vec![],
-                                            };
-                                            let d3 = d2.fork();
-                                            d3.install();
-                                            let pr = persist_snapshot(DATA, &o.followup);
-                                            d3.reboot(Reboot::ProcessCrash, &[]);
-                                            let (r3, _) = restart(&d3);
-                                            cx.evals += 1;
-                                            cx.probe("followup_upload_after_crash");
-                                            let pin = json!({"phase":"crash","pass":pass.name(),"event":step,"op":cp.op,"partial":cp.partial,"mode":mode,"choices":choices});
-                                            let mut both = restored_bytes.clone();
-                                            both.push(o.followup.clone());
-                                            let want = canon_of(&store_from(&both));
-                                            let alone = canon_of(&store_from(&[o.followup.clone()]));
-                                            let where_ = format!("upload #{ordinal} killed {}, server restarted, next upload", describe(&ops, &cp));
-                                            if let Err(e) = pr {
-                                                cx.violate("C14/after_crash/process_crash/next_persist_failed".into(), format!("{where_}: persist_snapshot failed: {e}"), step, pin);
-                                            } else {
-                                                match &r3 {
-                                                    Restored::Graph(c) if *c == want => {}
-                                                    Restored::Graph(c) if *c == alone => cx.violate(sig_for("crash", mode, "only_last_import_kept"), format!("{where_} acknowledged; the following restart restored only that upload"), step, pin),
-                                                    Restored::Graph(c) => cx.violate("C14/after_crash/process_crash/next_upload_not_restored".into(), format!("{where_} acknowledged; the following restart restored {}", c.replace('\n', " ")), step, pin),
-                                                    Restored::Error(e, _) => cx.violate("C14/after_crash/process_crash/restore_error".into(), format!("{where_} acknowledged; the following restart failed: {e}"), step, pin),
-                                                    Restored::Panic(m) => cx.violate("C14/after_crash/process_crash/restore_panicked".into(), format!("{where_}: {m}"), step, pin),
-                                                }
+                                    // ---- the history goes on: the restarted server serves what it restored, the client
+                                    // retries the upload it never got an answer for / sends further uploads, next restart
+                                    if fired && acked {
+                                        if let Restored::Graph(c0) = &r {
+                                            // once per (import event, what the crash left on disk)
+                                            if cx.followed.insert(hash_str(&format!("{step}/{}", disk_shape(&d2, &data)))) {
+                                                let pin = json!({"phase":"crash","pass":pass.name(),"event":step,"op":cp.op,"partial":cp.partial,"mode":mode,"choices":choices});
+                                                let w = Cont { step, mode: *mode, origin: format!("upload #{ordinal} killed {} [{mode}], server restarted", describe(&ops, &cp)), pin };
+                                                continue_after_crash(cx, o, &d2, c0, &known.empty, &data, &w);
                                             }
                                         }
                                     }
@@ -767,7 +947,7 @@ impl Scenario for C14 {
         }
     }
     fn rule(&self) -> &'static str {
-        "history = 1..3 import events (generated graph of 1-4 nodes / 0-3 relationships, 2 labels, 2 types, small values, exported at gzip level 0/1/3/6/9 by the real exporter) with clean restart events between them (p=1/3 each gap) and an implicit final clean restart, plus 0-2 damaged uploads (upload_bad, half of the runs: file cut short / JSON cut inside an intact gzip / relationship to a node not in the file / random bytes / one flipped byte / unsupported version) inserted anywhere; an upload answered with anything but 200 status ok is not acknowledged and must leave every later restart (clean restart right after it, and a kill at every file-system call it made, all reboot modes) at the graph as of the acknowledged imports; upload = import_tenant_with_dedup + persist_snapshot directly or (knob via_http, 1/3 of the runs without and 2/3 of the runs with a damaged upload) a multipart POST through HttpServer::router(); each case runs twice (journalling file system / bare POSIX) and per import enumerates every crash point of persist_snapshot (before each FS call, every torn offset of the write under process_crash, sampled torn offsets under power loss, and after the last call) x {process_crash, power_loss_journal: every surviving prefix of uncommitted namespace ops, power_loss_posix: every subset up to 4 pending ops else none/all/14 sampled} x {none / all / a sampled part of unsynced file data}; after every distinct process-crash state the restarted server takes one more upload and restarts again. Non-trivial = at least 2 imports, or 1 import whose graph has a relationship. Distinct = hash of (event kinds incl. kind of damage, node/edge counts, gzip level, via_http)."
+        "history = 1..3 import events (generated graph of 1-4 nodes / 0-3 relationships, 2 labels, 2 types, small values, exported at gzip level 0/1/3/6/9 by the real exporter) with clean restart events between them (p=1/3 each gap) and an implicit final clean restart, plus 0-2 damaged uploads (upload_bad, half of the runs: file cut short / JSON cut inside an intact gzip / relationship to a node not in the file / random bytes / one flipped byte / unsupported version) inserted anywhere; an upload answered with anything but 200 status ok is not acknowledged and must leave every later restart (clean restart right after it, and a kill at every file-system call it made, all reboot modes) at the graph as of the acknowledged imports; upload = import_tenant_with_dedup + persist_snapshot directly or (knob via_http, 1/3 of the runs without and 2/3 of the runs with a damaged upload) a multipart POST through HttpServer::router(); each case runs twice (journalling file system / bare POSIX) and per import enumerates every crash point of persist_snapshot (before each FS call, every torn offset of the write under process_crash, sampled torn offsets under power loss, and after the last call) x {process_crash, power_loss_journal: every surviving prefix of uncommitted namespace ops, power_loss_posix: every subset up to 4 pending ops else none/all/14 sampled} x {none / all / a sampled part of unsynced file data}; after every distinct on-disk state a crash inside an acknowledged upload leaves (all reboot modes) the history continues on the restarted server (live store = what it restored): a retry of the byte-identical in-flight upload then a new one-node upload, and the other order, each followed by a clean restart (must restore that server's live graph), the retry when it comes first also killed before each of its file-system calls and inside its write (restart: before or after). Non-trivial = at least 2 imports, or 1 import whose graph has a relationship. Distinct = hash of (event kinds incl. kind of damage, node/edge counts, gzip level, via_http)."
     }
     fn real_components(&self) -> Vec<&'static str> {
         vec![
@@ -795,7 +975,7 @@ impl Scenario for C14 {
         ]
     }
     fn required_probes(&self, _tier: Tier) -> Vec<&'static str> {
-        vec!["crash_inside_persist", "followup_upload_after_crash", "crashed_upload_survives", "crashed_upload_rolled_back", "restart_after_several_imports", "crash.torn_write", "power_loss.ns_op_lost", "via_http_runs", "rejected_upload_via_http", "rejected_after_acknowledged_import", "restart_after_rejected_upload", "rejected.truncate_bytes", "rejected.truncate_text", "rejected.dangling_edge", "rejected.garbage"]
+        vec!["crash_inside_persist", "followup_upload_after_crash", "retry_after_crash", "retry_onto_uncommitted_identical_snapshot", "retried_upload_restored", "crash_inside_upload_after_crash", "history_continued_after_power_loss", "crashed_upload_survives", "crashed_upload_rolled_back", "restart_after_several_imports", "crash.torn_write", "power_loss.ns_op_lost", "via_http_runs", "rejected_upload_via_http", "rejected_after_acknowledged_import", "restart_after_rejected_upload", "rejected.truncate_bytes", "rejected.truncate_text", "rejected.dangling_edge", "rejected.garbage"]
     }
     fn generate(&self, s: &mut Streams, _run_index: u64, tier: Tier) -> Case {
         let mut case = Case::new("C14");
@@ -854,7 +1034,7 @@ impl Scenario for C14 {
         let pin = case.pin().cloned();
         let via_http = case.knob_bool("via_http", false);
         let samples: Vec<u64> = case.knobs.get("samples").and_then(|v| v.as_array()).map(|a| a.iter().filter_map(|x| x.as_u64()).collect()).unwrap_or_else(|| vec![3, 11, 29, 71]);
-        let mut cx = Ctx { vios: vec![], sigs: BTreeSet::new(), probes: BTreeMap::new(), faults: BTreeMap::new(), evals: 0, steps: 0, memo: Vec::new(), stop: false };
+        let mut cx = Ctx { vios: vec![], sigs: BTreeSet::new(), probes: BTreeMap::new(), faults: BTreeMap::new(), evals: 0, steps: 0, memo: Vec::new(), followed: BTreeSet::new(), stop: false };
         let followup = build_snapshot(&json!({"op":"import","nodes":[{"l":[1],"p":{"k":{"i":7}}}],"edges":[],"gz":1}), 99);
         for pass in [Pass::Journal, Pass::Posix] {
             let (do_crash, do_clean) = match &pin {
